@@ -42,6 +42,9 @@ namespace QE.C20
 
 variable {K : Type} [CommRing K] [LinearOrder K] [IsStrictOrderedRing K]
 
+/-- (used by the history example) the coordination game with payoffs (2, 1) -/
+def exG0 : Game Int := ⟨[[2, 0], [0, 1]], 0, false⟩
+
 /-! ## What "best response" means in the model -/
 
 omit [LinearOrder K] [IsStrictOrderedRing K] in
@@ -313,6 +316,51 @@ theorem sbrd_step (ι : Int → K) (G : Game K) (inp : Inp K) (d : List Int) (ri
     stepK ι G .sbrd inp (d, ri) =
       (move d (locate d inp.p) (brPick G ((bincount G.A.length inp.sample).map ι) none ri).1,
        (brPick G ((bincount G.A.length inp.sample).map ι) none ri).2) := rfl
+
+/-! ### Histories on one object -/
+
+omit [IsStrictOrderedRing K] in
+/-- **History theorem.**  Along any history of attribute reassignments / in-place edits (`Op.set`) and
+    `time_series` calls on one instance, every answer is a function of the state current at the call
+    and of the call's arguments only: it equals `series` evaluated on exactly that state — earlier
+    calls, earlier states and later operations have no influence. -/
+theorem runOps_history (ι : Int → K) :
+    ∀ (ops : List (Op K)) (o : Obj K),
+      runOps ι o ops = (callsWithState o ops).map (fun c => series ι c.1.G c.1.kind c.2.1 c.2.2) := by
+  intro ops
+  induction ops with
+  | nil => intro o; rfl
+  | cons op rest ih =>
+    intro o
+    cases op with
+    | set o' => simpa [runOps, callsWithState] using ih o'
+    | series inps s => simp [runOps, callsWithState, ih o]
+
+omit [IsStrictOrderedRing K] in
+/-- consequence: an answer is unaffected by what was done to the object before the last `set` -/
+theorem runOps_forgets_prefix (ι : Int → K) (pre : List (Op K)) (o o' : Obj K) (ops : List (Op K)) :
+    (runOps ι o (pre ++ .set o' :: ops)).drop (runOps ι o pre).length = runOps ι o' ops := by
+  induction pre generalizing o with
+  | nil => simp [runOps]
+  | cons op rest ih =>
+    cases op with
+    | set o'' => simpa [runOps] using ih o''
+    | series inps s => simpa [runOps] using ih o
+
+/-- … and every answer of a history is valid whenever the call's own inputs are (`series_rows_valid`
+    applied to the state current at the call) -/
+theorem runOps_valid (ι : Int → K) (ops : List (Op K)) (o : Obj K) (N : Int) (n : Nat) :
+    ∀ c ∈ callsWithState o ops, c.1.G.A.length = n → (∀ inp ∈ c.2.1, 0 ≤ inp.p ∧ inp.p < N) →
+      Valid N n c.2.2.1 → (∀ r ∈ c.2.2.2, r < n) →
+      ∃ rows fin, series ι c.1.G c.1.kind c.2.1 c.2.2 = some (rows, fin) ∧
+        (∀ r ∈ rows, Valid N n r) ∧ Valid N n fin.1 := by
+  intro c _ hA hin hv hri
+  obtain ⟨rows, fin, h1, _, h3, h4⟩ := series_rows_valid ι c.1.G c.1.kind N n hA c.2.1 c.2.2 hin hv hri
+  exact ⟨rows, fin, h1, h3, h4⟩
+
+example : runOps (fun z => z) ⟨exG0, .brd⟩
+    [.series [⟨0, 0, []⟩] ([2, 1], []), .set ⟨⟨[[0, 0], [0, 5]], 0, false⟩, .brd⟩, .series [⟨0, 0, []⟩] ([2, 1], [])]
+    = [some ([[2, 1]], ([2, 1], [])), some ([[2, 1]], ([1, 2], []))] := by decide
 
 /-! ## FictitiousPlay / StochasticFictitiousPlay (two players) -/
 
